@@ -924,9 +924,8 @@ theorem implTail_succ_some (H : HashFn) (msg : Bytes) (k : Nat) (rest : Bytes) (
         cases b <;> rfl
 
 
-
 theorem pkLen_eq (n : Nat) : lms_public_key_length n = 24 + n := by
-  unfold lms_public_key_length ILEN; omega
+  simp only [lms_public_key_length]
 
 theorem parseSignedPk_some {n : Nat} {rest : Bytes} {s : InMemLmsSig} {p : InMemLmsPk} {l : Nat}
     (h : parseSignedPk n rest = some (s, p, l)) :
